@@ -153,7 +153,10 @@ impl OutputFormat for IceDraw {
         let data_size = data.len() - FONT_SIZE - PALETTE_SIZE;
         let mut pos = Position::new(x1, y1);
 
-        while o + 1 < data_size {
+        // an iCE Draw picture has at most 200 lines (the writer refuses more); run lengths that go on
+        // beyond that are damage, not picture
+        const MAX_LINES: i32 = 200;
+        while o + 1 < data_size && pos.y < MAX_LINES {
             let mut rle_count = 1;
             let mut char_code = data[o];
             o += 1;
@@ -172,7 +175,7 @@ impl OutputFormat for IceDraw {
                 attr = data[o];
                 o += 1;
             }
-            while rle_count > 0 {
+            while rle_count > 0 && pos.y < MAX_LINES {
                 result.layers[0].set_height(pos.y + 1);
                 result.set_height(pos.y + 1);
                 let attribute = TextAttribute::from_u8(attr, result.ice_mode);
